@@ -61,20 +61,8 @@ pub fn generate(g: &mut Gen) {
         if b.len() > 400_000 && !g.thorough() { continue; }
         blocks.push(b);
     }
-    if g.thorough() {
-        // immutable-db chunks: concatenated blocks
-        for f in ["01285.chunk", "01836.chunk", "02019.chunk"] {
-            if let Ok(data) = std::fs::read(format!("{}/test_data/{}", fx::repo_dir(), f)) {
-                let mut at = 0;
-                let mut k = 0;
-                while at < data.len() {
-                    let Some(e) = fx::item_end(&data, at) else { break };
-                    if k % 8 == 0 { blocks.push(data[at..e].to_vec()); }
-                    at = e; k += 1;
-                }
-            }
-        }
-    }
+    // immutable-db chunks: concatenated blocks
+    for b in fx::chunk_blocks(if g.thorough() { 8 } else { 400 }) { blocks.push(b); }
     let mut headers: Vec<(u64, Vec<u8>)> = vec![];
     for (n, b) in fx::hex_files("header") {
         headers.push((if n.starts_with("byron") { 1 } else { 5 }, b));
